@@ -76,6 +76,22 @@ def evaluate(case, out):
     per = {c: [i for i in order if cvrs[i].has_contest(c)][: sizes[c]] for c in cids}
     union = set().union(*[set(v) for v in per.values()]) if per else set()
     want = [i for i in order if i in union]
+    own = None
+    if case["seed"] % 5 == 3 and cids:
+        # the caller keeps one list of the cards drawn so far (still empty) and hands it to every request; a first request
+        # asks one contest for more cards than list it and is refused; the request is then made again with proper sizes
+        own = []
+        big = cids[case["seed"] % len(cids)]
+        contests[big].sample_size = contests[big].cards + 1
+        try:
+            CVR.consistent_sampling(cvrs, contests, sampled_cvr_indices=own)
+            own = []   # not refused: nothing is claimed about such a request; start over
+            for c in cvrs:
+                c.sampled = False
+        except Exception:  # noqa
+            out.cls("after-a-refused-request-with-the-same-list")
+        for cid, con in contests.items():
+            con.sample_size = sizes[cid]
     try:
         if case["seed"] % 2 == 0:
             # an earlier draw with the same Contest objects: every card, numbers in reverse order (fresh card objects)
@@ -93,13 +109,13 @@ def evaluate(case, out):
             # selection back - the full sizes; the result is the selection for the full sizes
             for k, (cid, con) in enumerate(contests.items()):
                 con.sample_size = sizes[cid] if (k + case["seed"] // 2) % 2 == 0 else sizes[cid] // 3
-            first = CVR.consistent_sampling(cvrs, contests)
+            first = CVR.consistent_sampling(cvrs, contests, sampled_cvr_indices=own)
             for cid, con in contests.items():
                 con.sample_size = sizes[cid]
             got = CVR.consistent_sampling(cvrs, contests, sampled_cvr_indices=[int(i) for i in first])
             out.cls("drawn-in-two-steps")
         else:
-            got = CVR.consistent_sampling(cvrs, contests)
+            got = CVR.consistent_sampling(cvrs, contests, sampled_cvr_indices=own)
     except Exception as e:  # noqa
         out.lib_exception("consistent_sampling", e)
         return
